@@ -1,0 +1,45 @@
+//go:build verif
+
+package server
+
+// Contracts checked by /verif (govc). Comments only; see /verif/DESIGN.md.
+
+// ---------------------------------------------------------------------------------------
+// C09 — /prove: one status line per request, the documented status/code per cause
+// ---------------------------------------------------------------------------------------
+
+//@ func malformedBodyError
+//@   property C09
+//@   ensures deref(result).StatusCode == 400 && deref(result).Code == "malformed_body" && deref(result).Message == errs.message(err)
+
+//@ func provingError
+//@   property C09
+//@   ensures deref(result).StatusCode == 400 && deref(result).Code == "proving_error" && deref(result).Message == errs.message(err)
+
+//@ func unexpectedError
+//@   property C09
+//@   ensures deref(result).StatusCode == 500 && deref(result).Code == "unexpected_error" && deref(result).Message == errs.message(err)
+
+//@ func (*Error) MarshalJSON
+//@   property C09
+//@   ensures result1 == nil ==> result0 == json.errDoc(error.Code, error.Message)
+
+//@ func (*Error) send
+//@   property C09
+//@   requires w.headerWrites == 0 && w.bodyWrites == 0
+//@   modifies w
+//@   ensures w.headerWrites == 1 && w.bodyWrites == 1 && w.status == error.StatusCode
+
+//@ func (proveHandler) ServeHTTP
+//@   property C09 C13
+//@   requires handler.mode == "insertion" || handler.mode == "deletion"
+//@   requires w.headerWrites == 0 && w.bodyWrites == 0
+//@   requires !isnil(handler.provingSystem)
+//@   modifies w
+//@   ensures w.headerWrites == 1
+//@   ensures r.Method != "POST" ==> w.status == 405 && w.bodyWrites == 0
+//@   ensures r.Method == "POST" ==> (w.status == 200 || w.status == 400 || w.status == 500) && w.bodyWrites == 1
+//@   assert@before:malformedBodyError origin(err, "ReadAll|Unmarshal")
+//@   assert@before:provingError origin(err, "ProveInsertion|ProveDeletion")
+//@   assert@before:unexpectedError origin(err, "Marshal")
+//@   assert@return w.status == 200 ==> origin(proof, "ProveInsertion.0|ProveDeletion.0") && w.body == json.proofDocOf(deref(proof).Proof)
